@@ -120,6 +120,9 @@ def typeName : Val → String
   | .arr _ => "array" | .func _ => "function" | .nfunc _ _ _ => "nfunction" | .nobj _ => "nobject"
   | _ => "unknown"      -- dict and the internal `this` object have no case in GetTypeName
 
+/-- dict entries in the order `ValueMap.Range` visits them: by key -/
+def sortEntries (l : List (String × Val)) : List (String × Val) := l.mergeSort (fun a b => !(b.1 < a.1))
+
 mutual
   /-- returns the text and the visited set after the traversal (Go never pops it) -/
   def toStr (h : Heap) : Nat → List Nat → Val → String × List Nat
@@ -138,9 +141,9 @@ mutual
       | _ => ("&()", seen)
     | fuel+1, seen, .dict a =>
       if seen.contains a then ("{...}", seen) else
-      let (t, seen') := joinEntries h fuel (a :: seen) (h.dictOf a)
-      -- Go ranges over a map: with two or more keys the order is random; the marker makes the streams skip the case
-      ((if (h.dictOf a).length ≥ 2 then "≈dict≈{" else "{") ++ t ++ "}", seen')
+      -- ValueMap.Range visits the keys in sorted order (bytewise = code point order for valid UTF-8)
+      let (t, seen') := joinEntries h fuel (a :: seen) (sortEntries (h.dictOf a))
+      ("{" ++ t ++ "}", seen')
     | _, seen, .func a =>
       match h[a]? with
       | some (.func n _ _ _) => ("function " ++ n, seen)
